@@ -21,7 +21,10 @@ CLAIMS = {
  'C01': ('The arithmetic anchor of BFV encryption/decryption exactness: scaling_variant::multiply_add_plain and multiply_sub_plain are proved, for every plain modulus t, every level and every plaintext with coefficients below t, to add/subtract in every RNS word '
          'exactly D*m + floor((R*m + floor((t+1)/2))/t) mod q_j (D = floor(Q/t) mod q_j and R = Q mod t taken from the level constants) and to leave all other words untouched; a spec-level theorem shows this equals floor((Q*m + floor((t+1)/2))/t), '
          'i.e. round(Q*m/t) computed without big integers. ASSUMED: the level constants equal their definitions (C13). '
-         'Not covered: decrypt(encrypt(m)) == m itself (needs NTT/RLWE noise analysis), encrypt_internal / decrypt plumbing, seed expansion, CKKS error.', '5 C01'),
+         'Encryptor::encrypt_zero_internal is proved to return a size-2 ciphertext on the requested level, in the representation of the scheme, with scale 1 and correction factor 1, to refuse unknown levels, missing keys and seed + public key, to ACCEPT every other request (live variant), '
+         'and, for public-key encryption below the key level, to produce each polynomial as the first k*N words of the scheme\'s own divide-and-round routine (CKKS: NTT form, BFV: coefficient form, BGV: mod-t variant) applied to a zero encryption made one level up. '
+         'ASSUMED: the metadata contracts of util::rlwe::encrypt_zero::* (their sampling is covered separately in C16). '
+         'Not covered: decrypt(encrypt(m)) == m itself (needs NTT/RLWE noise analysis), encrypt_internal (message addition), the decryptor, seed expansion, CKKS error.', '5 C01'),
  'C02': ('Word-level contracts on the BFV/BGV evaluation code that does not need the NTT or RNS theorems: negate / add / sub in all three call forms are proved, for every pair of operand sizes and every pair of BGV correction factors, '
          'to produce exactly (a +/- b) mod q_j in every RNS word of the common polynomials and the (negated, for a - b) extra polynomials of the longer operand, after multiplying both operands by scalars e1, e2 with e1*f1 = e2*f2 = f (mod t) '
          '(balance_correction_factors is proved for all factor pairs, including termination and absence of i64 overflow); invalid operands, different levels, different representations and mismatched scales are refused. '
